@@ -44,7 +44,10 @@ class Rng:
     MASK = (1 << 64) - 1
 
     def __init__(self, seed: int):
-        self.s = (seed * 0x9E3779B97F4A7C15 + 0x1234567) & self.MASK
+        # scramble the seed (two SplitMix64 output rounds) so that neighbouring seeds give unrelated streams
+        self.s = (seed ^ 0x5DEECE66D1234567) & self.MASK
+        self.s = self.next() ^ ((seed * 0xD6E8FEB86659FD93) & self.MASK)
+        self.next()
 
     def next(self) -> int:
         self.s = (self.s + 0x9E3779B97F4A7C15) & self.MASK
